@@ -310,6 +310,15 @@ def truncTII (S T : IntTy) (N D : Nat) (x : Int) : Eval Bool :=
   | .ok _ => .ok false                                 -- integral → integral: CANNOT_TRUNCATE
   | .ub w => .ub w
 
+/-- Whether evaluating `will_conversion_truncate<T>` executes a signed overflow or an unsigned
+wrap-around (inside its `coerce_in`): what an exact-count sanitizer build observes in the checker. -/
+def truncCheckerEvent (S T : IntTy) (N D : Nat) (x : Int) : Bool :=
+  let C := IntTy.common S T
+  let xc := C.wrap x
+  if wouldTruncate C N D xc then false else
+  let r := applyMag C N D xc
+  (match r.val with | .ok _ => false | .ub _ => true) || r.wrapped
+
 def lossyOf (t o : Eval Bool) : Eval Bool :=
   match t with
   | .ub w => .ub w
